@@ -180,6 +180,12 @@ func raceOne(m map[string]string) string {
 	lcfg := raceCfg(filepath.Join(root, "leech"), portBase+100)
 	lcfg.SpeedLimitDownload = 3000 // KB/s: the transfer lasts a couple of seconds
 	lcfg.RequestTimeout = 3 * time.Millisecond // snub timers fire all the time: their reports race with stops and closes
+	if raceDetector {
+		// Under the race detector everything is several times slower: with 3 ms every request times out and the
+		// leecher writes next to no piece (2 of 193 in a case), so that races with the piece-write path have nothing
+		// to show themselves on. The snub storm is what C08 uses this suite for (without the detector).
+		lcfg.RequestTimeout = 60 * time.Millisecond
+	}
 	ss, err := torrent.NewSession(scfg)
 	if err != nil {
 		return "error:seeder:" + err.Error()
@@ -216,6 +222,12 @@ func raceOne(m map[string]string) string {
 			stuck[name] = true
 			stuckMu.Unlock()
 		}
+	}
+	// (under the race detector a restart — allocation and a verification of what is on disk — takes longer than
+	// 120 ms: stopped again that soon, the leecher never gets back to downloading)
+	stopStartEvery := 120 * time.Millisecond
+	if raceDetector {
+		stopStartEvery = 900 * time.Millisecond
 	}
 	stop := make(chan struct{})
 	var wg sync.WaitGroup
@@ -364,7 +376,7 @@ func raceOne(m map[string]string) string {
 			select {
 			case <-stop:
 				return
-			case <-time.After(120 * time.Millisecond):
+			case <-time.After(stopStartEvery):
 			}
 			call("PeriodicStopStart", func() { _ = lt.Stop(); time.Sleep(10 * time.Millisecond); _ = lt.Start() })
 		}
